@@ -301,6 +301,14 @@ def run(ctx):
         if not re.match(r"^(set_|remove_)", nm):
             r.violate("set_modified|" + c, f"{c} invalidates the raw bytes of a token although it is not a set_*/remove_* mutator: an observed-only token would be re-serialised (quotes/spacing normalised)", None)
 
+    # ------------------------------------------------------------------ R01.6 / R01.7 (shared)
+    # the tag scanner's consumed count lags behind by a stale look-ahead mark (bytes re-fed / lost): C09 R09.3
+    from .c09 import rule_seq_mark
+    rule_seq_mark(ctx, aut, rid="R01.6")
+    # captured text is re-encoded from its decoded form: a BOM-sniffing decoder drops or re-interprets bytes: C13 R13.4
+    from .c13 import rule_no_bom_sniffing
+    rule_no_bom_sniffing(ctx, mir, rid="R01.7")
+
     ctx.not_decided += ["bytes of captured text surviving decode/encode (stated exception of the property)", "arithmetic of Arena::shift / init_with (memory module unit tests)"]
     return ("Structural conditions of 'lexemes and raw gaps tile every chunk exactly once': construction sites and the five writers of "
             "Lexer.lexeme_start, EOF leaves of all %d automaton states, commit order and flush ordering on every CFG path of the dispatcher / "
